@@ -119,6 +119,27 @@ def python_tables():
             "gen_py_bytes_space": bytes_space, "gen_py_json_space": json_space}, crlf_one
 
 
+SBCS = ["cp1252", "iso8859-15", "koi8-r", "cp437", "iso8859-7", "mac-roman"]
+
+
+def sbcs_tables():
+    """decode tables of a few single-byte codecs, probed byte by byte on the running interpreter."""
+    out = []
+    for enc in SBCS:
+        row = []
+        for b in range(256):
+            try:
+                ch = bytes([b]).decode(enc)
+            except UnicodeDecodeError:
+                row.append(None)
+                continue
+            if len(ch) != 1:
+                raise Refused("%s decodes byte %d to %r" % (enc, b, ch))
+            row.append(ord(ch))
+        out.append(row)
+    return out
+
+
 def render(alts, tables=None, crlf_one=True):
     def lit(a):
         return "[" + "; ".join("%d%%N" % c for c in a) + "]"
@@ -130,6 +151,9 @@ def render(alts, tables=None, crlf_one=True):
         for name in sorted(tables):
             out += "Definition %s : list N := %s.\n" % (name, lit(tables[name]))
         out += "Definition gen_py_crlf_is_one_break : bool := %s.\n" % ("true" if crlf_one else "false")
+        out += "(* single-byte codecs %s: byte -> code point *)\n" % ", ".join(SBCS)
+        out += "Definition gen_sbcs : list (list (option N)) :=\n  [" + ";\n   ".join(
+            "[" + "; ".join("None" if c is None else "Some %d%%N" % c for c in row) + "]" for row in sbcs_tables()) + "].\n"
     return out
 
 
